@@ -1,4 +1,4 @@
-(* Proofs/EvalC01Facts.v — the C01 evaluator never answers an oracle query by
+(* Run/EvalC01Facts.v — the C01 evaluator never answers an oracle query by
    a silent default: when oracle_complete holds (otherwise the case is reported
    as ORACLE-MISS), the model's result is the same whatever the default values
    of the three table-lookup functions are, i.e. every query verify made was
@@ -53,3 +53,14 @@ Proof.
   rewrite !Hdig.
   rewrite (ver_fn_found vd _ _ _ _ _ Ev), (ver_fn_found vd' _ _ _ _ _ Ev). reflexivity.
 Qed.
+
+(* the compact literal notation of the case files decodes as intended *)
+From Coq Require Import PrimInt63.
+Example b7_example :
+  b7 9 (W 0x68656c6c6f2c20 (W 0x776f WE)) = s2b "hello, wo" /\
+  b7 3 (W 0x0000ff WE) = [0; 0; 255] /\ b7 0 WE = [] /\
+  b7 7 (W 0xffffffffffffff WE) = [255; 255; 255; 255; 255; 255; 255] /\
+  b7 8 (W 0x00000000000000 (W 0x80 WE)) = [0; 0; 0; 0; 0; 0; 0; 128].
+Proof. vm_compute. repeat split. Qed.
+
+Print Assumptions oracle_complete_no_default.
